@@ -1,6 +1,9 @@
 import DoltVerif.Model.BranchControl
 import DoltVerif.Lemmas.BranchControlLike
 import DoltVerif.Lemmas.BranchControlAccess
+import DoltVerif.Lemmas.BranchControlFold
+import DoltVerif.Lemmas.BranchControlFoldLike
+import DoltVerif.Lemmas.BranchControlNs
 /-!
 C38 — Branch permissions follow the rule table's documented matching.  Property theorems only
 (helper lemmas live in `Lemmas/BranchControl*.lean`).  Statements are about
@@ -107,5 +110,255 @@ theorem closePerms_table : ∀ p : Fin 16,
     closePerms p.val =
       if p.val &&& 1 = 1 then p.val ||| 14 else if p.val &&& 2 = 2 then p.val ||| 12
       else if p.val &&& 4 = 4 then p.val ||| 8 else p.val := by decide
+
+/-! ## 3. `FoldExpression` -/
+
+/-- **`fold_terminates`** (a real termination proof): every pass of the `for true { … }` loop that
+changes the string strictly lowers the potential "Σ over unescaped `%` of 1 + number of unescaped
+`_` to its right", so the loop reaches `str == newStr` after at most `potential + 1` passes — the
+fuel the model runs it with — and with any larger fuel the answer is the same. -/
+theorem fold_terminates (s : List Rune) :
+    foldPass (fold s) = fold s ∧
+    (foldPass s ≠ s → potential false (foldPass s) < potential false s) ∧
+    (∀ n, potential false s < n → foldLoop n s = fold s) :=
+  ⟨fold_fix s, foldPass_lt s, fun n h => foldLoop_fuel n _ s h (Nat.lt_succ_self _)⟩
+
+example : fold [pct, und, und, pct, pct, 97] = [und, und, pct, 97] ∧ foldPass [pct, und, und] ≠ [pct, und, und] := by
+  decide
+
+/-- **`fold_idempotent`** -/
+theorem fold_idempotent (s : List Rune) : fold (fold s) = fold s := fold_of_fix _ (fold_fix s)
+
+/-- **`fold_preserves`**: folding never changes which strings an expression matches (under any
+sorter) -/
+theorem fold_preserves (so : Rune → Int) (s : List Rune) (x : List Int) :
+    likeSpec (parse so (fold s)) x = likeSpec (parse so s) x :=
+  foldLoop_like so _ s x
+
+/-- **`folded_has_no_any_pairs`**: the parsed result of `FoldExpression` contains no `[any, any]`
+and no `[any, single]` — exactly the shape `Matches` and `processMatch` silently rely on. -/
+theorem folded_has_no_any_pairs (so : Rune → Int) (hso : ∀ r, 0 ≤ so r) (s : List Rune) :
+    folded (parse so (fold s)) = true :=
+  (foldedFacts so hso (fold s)).n (noPair_of_fix _ (fold_fix s))
+
+/-- lower-casing the folded string (what `Access.Insert` does) keeps it folded, for a `ToLower` that
+leaves the three special characters alone and maps nothing else onto them -/
+theorem folded_after_lower (so : Rune → Int) (hso : ∀ r, 0 ≤ so r) (lower : Rune → Rune)
+    (hl : ∀ r, (lower r = bs ↔ r = bs) ∧ (lower r = pct ↔ r = pct) ∧ (lower r = und ↔ r = und))
+    (s : List Rune) : folded (parse so ((fold s).map lower)) = true := by
+  have hnp := noPair_of_fix _ (fold_fix s)
+  have key : ∀ (st : St) (t : List Rune), noPair st (t.map lower) = noPair st t := by
+    intro st t
+    induction t generalizing st with
+    | nil => cases st <;> rfl
+    | cons r t ih =>
+      obtain ⟨h1, h2, h3⟩ := hl r
+      cases st with
+      | skip => simp [noPair, ih]
+      | normal =>
+        by_cases hb : r = bs
+        · subst hb; have := h1.mpr rfl; simp [noPair, this, ih]
+        · have hb' : lower r ≠ bs := fun h => hb (h1.mp h)
+          by_cases hp : r = pct
+          · subst hp; have := h2.mpr rfl; simp [noPair, this, ih, bs_ne_pct.symm]
+          · have hp' : lower r ≠ pct := fun h => hp (h2.mp h)
+            simp [noPair, hb, hb', hp, hp', ih]
+      | consider =>
+        by_cases hb : r = bs
+        · subst hb; have := h1.mpr rfl; simp [noPair, this, ih]
+        · have hb' : lower r ≠ bs := fun h => hb (h1.mp h)
+          by_cases hu : r = und
+          · subst hu; have := h3.mpr rfl; simp [noPair, this, bs_ne_und.symm]
+          · have hu' : lower r ≠ und := fun h => hu (h3.mp h)
+            by_cases hp : r = pct
+            · subst hp; have := h2.mpr rfl; simp [noPair, this, bs_ne_pct.symm, pct_ne_und]
+            · have hp' : lower r ≠ pct := fun h => hp (h2.mp h)
+              simp [noPair, hb, hb', hu, hu', hp, hp', ih]
+  exact (foldedFacts so hso _).n (by rw [key]; exact hnp)
+
+/-- **the stored namespace expressions are matched by LIKE**: end to end for the flat matcher —
+a row inserted as the raw expression `e` (folded on insert) matches a non-empty string exactly when
+the *raw* expression LIKE-matches it. -/
+theorem flat_match_raw (so : Rune → Int) (hso : ∀ r, 0 ≤ so r) (raws : List (List Rune)) (str : List Rune)
+    (hne : str ≠ []) (i : Nat) :
+    i ∈ matchFlat so (indexed (raws.map (fun e => parse so (fold e)))) str ↔
+      ∃ p, (i, p) ∈ indexed (raws.map (fun e => parse so (fold e))) ∧ likeSpec p (str.map so) = true := by
+  apply flat_match_like so _ str i hne hso
+  intro e he
+  have : e.2 ∈ raws.map (fun e => parse so (fold e)) := by
+    simp only [indexed, List.mem_map] at he
+    obtain ⟨pi, hpi, rfl⟩ := he
+    have := List.mem_zipIdx_iff_getElem?.mp hpi
+    exact List.mem_iff_getElem?.mpr ⟨_, this⟩
+  obtain ⟨raw, _, hr⟩ := List.mem_map.mp this
+  rw [← hr]
+  exact folded_has_no_any_pairs so hso raw
+
+/-! ## 4. the trie (statements; see `design/C38.md` — not proved, compared exhaustively by the harness) -/
+
+inductive TrieOp where
+  | add (key : List Int) (d : Data)
+  | remove (key : List Int)
+
+def runOps (ops : List TrieOp) : Node :=
+  ops.foldl (fun t op => match op with
+    | .add k d => t.add k d
+    | .remove k => (t.remove k).1) (.mk [columnMarker] [] none)
+
+/-- the rule table the operations leave behind: later additions overwrite, removals delete -/
+def finalRules (ops : List TrieOp) : List (List Int × Data) :=
+  ops.foldl (fun rs op => match op with
+    | .add k d => (rs.filter (fun kd => kd.1 != k)) ++ [(k, d)]
+    | .remove k => rs.filter (fun kd => kd.1 != k)) []
+
+def TrieOp.key : TrieOp → List Int
+  | .add k _ => k
+  | .remove k => k
+
+/-- the direct, per-rule match: the same token-level matcher run on the rule alone -/
+def directMatch (kd : List Int × Data) (tokens : List Int) : List (Data × Nat) :=
+  Node.matchTokens (.mk kd.1 [] (some kd.2)) tokens
+
+/-- `trie_eq_direct` + `trie_order_independent` at full strength: after *any* sequence of `Add` /
+`Remove` (keys as produced by `parseExpression`, i.e. starting with a column marker), the trie
+reports exactly the (data, length) pairs the direct per-rule match reports over the final rule
+table (as sets: the trie may report a pair more than once).  Since the right-hand side depends only
+on the final rule table, every insert/delete order with the same final table gives the same
+answers. -/
+def trie_eq_direct_full : Prop :=
+  ∀ (ops : List TrieOp) (tokens : List Int) (r : Data × Nat),
+    (∀ op ∈ ops, op.key.head? = some columnMarker) →
+    (r ∈ (runOps ops).matchTokens tokens ↔ ∃ kd ∈ finalRules ops, r ∈ directMatch kd tokens)
+
+/-- a test (not a proof) of the statement above on one history with a split, an overwrite, a
+removal with merge, and a `%` that must not cross a column -/
+example :
+    let ops := [TrieOp.add [-3, 5, -3, -2, -3, 7, -3, -2] ⟨2, 0⟩, .add [-3, 5, -3, 6, -2, -3, 7, -3, -2] ⟨1, 1⟩,
+                .add [-3, 5, -3, 6, -3, 7, -3, -2] ⟨4, 2⟩, .remove [-3, 5, -3, 6, -3, 7, -3, -2],
+                .add [-3, 5, -3, -2, -3, 7, -3, -2] ⟨8, 3⟩]
+    (runOps ops).matchTokens [-3, 5, -3, 6, 6, -3, 7, -3, 9] = [(⟨8, 3⟩, 8), (⟨1, 1⟩, 9)] ∧
+    (finalRules ops).flatMap (fun kd => directMatch kd [-3, 5, -3, 6, 6, -3, 7, -3, 9]) = [(⟨1, 1⟩, 9), (⟨8, 3⟩, 8)] := by
+  decide
+
+/-! ## 5. `Namespace.CanCreate` -/
+
+/-- **`namespace_canCreate_spec`** — the decision logic stated outright, in terms of the textbook
+LIKE on the stored (folded) rows, for non-empty request strings: a branch may be created iff no row
+matches the database, or no such row matches the branch, or some row matching both, whose branch
+expression is (byte-)longest among those, also matches user and host. -/
+theorem namespace_canCreate_spec (ai bin : Rune → Int) (hai : ∀ r, 0 ≤ ai r) (hbin : ∀ r, 0 ≤ bin r)
+    (ns : Namespace)
+    (hf : ∀ v ∈ ns, folded (parse ai v.db) = true ∧ folded (parse ai v.br) = true ∧
+      folded (parse bin v.us) = true ∧ folded (parse ai v.ho) = true)
+    (db br us ho : List Rune) (hdb : db ≠ []) (hbr : br ≠ []) (hus : us ≠ []) (hho : ho ≠ []) :
+    let dbM := fun v : NsRow => likeSpec (parse ai v.db) (db.map ai) = true
+    let brM := fun v : NsRow => likeSpec (parse ai v.br) (br.map ai) = true
+    let usM := fun v : NsRow => likeSpec (parse bin v.us) (us.map bin) = true
+    let hoM := fun v : NsRow => likeSpec (parse ai v.ho) (ho.map ai) = true
+    Namespace.canCreate ai bin ns db br us ho = true ↔
+      ((∀ v ∈ ns, ¬ dbM v) ∨ (∀ v ∈ ns, ¬ (dbM v ∧ brM v)) ∨
+        ∃ v ∈ ns, dbM v ∧ brM v ∧ usM v ∧ hoM v ∧
+          ∀ w ∈ ns, dbM w → brM w → byteLen w.br ≤ byteLen v.br) := by
+  intro dbM brM usM hoM
+  have h1 := stage0_mem ai hai ns (·.db) (fun v hv => (hf v hv).1) db hdb
+  have h2 := fun idxs => stage_mem ai hai ns (·.br) (fun v hv => (hf v hv).2.1) idxs br hbr
+  have h4 := fun idxs => stage_mem bin hbin ns (·.us) (fun v hv => (hf v hv).2.2.1) idxs us hus
+  have h5 := fun idxs => stage_mem ai hai ns (·.ho) (fun v hv => (hf v hv).2.2.2) idxs ho hho
+  unfold Namespace.canCreate
+  simp only []
+  generalize hF1 : matchFlat ai (indexed (ns.map (fun v => parse ai v.db))) db = f1 at *
+  generalize hF2 : matchFlat ai (filterExprs (indexed (ns.map (fun v => parse ai v.br))) f1) br = f2
+  have h2' := h2 f1; rw [hF2] at h2'
+  have hvalid : ∀ m ∈ f2, m < ns.length := by
+    intro m hm
+    obtain ⟨_, v, hv, _⟩ := (h2' m).mp hm
+    exact (List.getElem?_eq_some_iff.mp hv).1
+  have h3 := fun i => longestBranches_mem ns f2 (-1) [] i hvalid
+  generalize hF3 : longestBranches ns f2 (-1) [] = f3 at h3
+  generalize hF4 : matchFlat bin (filterExprs (indexed (ns.map (fun v => parse bin v.us))) f3) us = f4
+  have h4' := h4 f3; rw [hF4] at h4'
+  generalize hF5 : matchFlat ai (filterExprs (indexed (ns.map (fun v => parse ai v.ho))) f4) ho = f5
+  have h5' := h5 f4; rw [hF5] at h5'
+  have hblen : ∀ i v, ns[i]? = some v → blen ns i = byteLen v.br := by
+    intro i v hv; simp [blen, hv]
+  by_cases e1 : f1.isEmpty = true
+  · simp only [e1, if_true, true_iff]
+    left
+    intro v hv hm
+    obtain ⟨i, hi⟩ := List.mem_iff_getElem?.mp hv
+    have : i ∈ f1 := (h1 i).mpr ⟨v, hi, hm⟩
+    rw [List.isEmpty_iff.mp e1] at this; simp at this
+  · by_cases e2 : f2.isEmpty = true
+    · simp only [e1, e2, Bool.false_eq_true, if_false, if_true, true_iff]
+      right; left
+      rintro v hv ⟨hm1, hm2⟩
+      obtain ⟨i, hi⟩ := List.mem_iff_getElem?.mp hv
+      have : i ∈ f2 := (h2' i).mpr ⟨(h1 i).mpr ⟨v, hi, hm1⟩, v, hi, hm2⟩
+      rw [List.isEmpty_iff.mp e2] at this; simp at this
+    · simp only [e1, e2, Bool.false_eq_true, if_false, Bool.not_eq_true', ← Bool.not_eq_true]
+      have hne1 : ∃ i, i ∈ f1 := by
+        cases f1 with
+        | nil => simp at e1
+        | cons a t => exact ⟨a, by simp⟩
+      have hne2 : ∃ i, i ∈ f2 := by
+        cases f2 with
+        | nil => simp at e2
+        | cons a t => exact ⟨a, by simp⟩
+      constructor
+      · intro h
+        have : ∃ i, i ∈ f5 := by
+          cases f5 with
+          | nil => simp at h
+          | cons a t => exact ⟨a, by simp⟩
+        obtain ⟨i, hi5⟩ := this
+        obtain ⟨hi4, v, hv, hmho⟩ := (h5' i).mp hi5
+        obtain ⟨hi3, v', hv', hmus⟩ := (h4' i).mp hi4
+        rw [hv] at hv'; cases hv'
+        rcases (h3 i).mp hi3 with ⟨hn, _⟩ | ⟨hi2, _, hmax⟩
+        · simp at hn
+        · obtain ⟨hi1, v', hv', hmbr⟩ := (h2' i).mp hi2
+          rw [hv] at hv'; cases hv'
+          obtain ⟨v', hv', hmdb⟩ := (h1 i).mp hi1
+          rw [hv] at hv'; cases hv'
+          right; right
+          refine ⟨v, List.mem_iff_getElem?.mpr ⟨i, hv⟩, hmdb, hmbr, hmus, hmho, ?_⟩
+          intro w hw hwdb hwbr
+          obtain ⟨j, hj⟩ := List.mem_iff_getElem?.mp hw
+          have hj2 : j ∈ f2 := (h2' j).mpr ⟨(h1 j).mpr ⟨w, hj, hwdb⟩, w, hj, hwbr⟩
+          have := hmax j hj2
+          rw [hblen j w hj, hblen i v hv] at this
+          exact Int.ofNat_le.mp this
+      · rintro (h | h | ⟨v, hv, hmdb, hmbr, hmus, hmho, hmax⟩)
+        · obtain ⟨i, hi⟩ := hne1
+          obtain ⟨v, hv, hm⟩ := (h1 i).mp hi
+          exact absurd hm (h v (List.mem_iff_getElem?.mpr ⟨i, hv⟩))
+        · obtain ⟨i, hi⟩ := hne2
+          obtain ⟨hi1, v, hv, hm⟩ := (h2' i).mp hi
+          obtain ⟨v', hv', hm1⟩ := (h1 i).mp hi1
+          rw [hv] at hv'; cases hv'
+          exact absurd ⟨hm1, hm⟩ (h v (List.mem_iff_getElem?.mpr ⟨i, hv⟩))
+        · obtain ⟨i, hi⟩ := List.mem_iff_getElem?.mp hv
+          have hi1 : i ∈ f1 := (h1 i).mpr ⟨v, hi, hmdb⟩
+          have hi2 : i ∈ f2 := (h2' i).mpr ⟨hi1, v, hi, hmbr⟩
+          have hi3 : i ∈ f3 := by
+            refine (h3 i).mpr (Or.inr ⟨hi2, ?_, ?_⟩)
+            · rw [hblen i v hi]; omega
+            · intro j hj
+              obtain ⟨hj1, w, hw, hwbr⟩ := (h2' j).mp hj
+              obtain ⟨w', hw', hwdb⟩ := (h1 j).mp hj1
+              rw [hw] at hw'; cases hw'
+              rw [hblen j w hw, hblen i v hi]
+              exact Int.ofNat_le.mpr (hmax w (List.mem_iff_getElem?.mpr ⟨j, hw⟩) hwdb hwbr)
+          have hi4 : i ∈ f4 := (h4' i).mpr ⟨hi3, v, hi, hmus⟩
+          have hi5 : i ∈ f5 := (h5' i).mpr ⟨hi4, v, hi, hmho⟩
+          cases f5 with
+          | nil => simp at hi5
+          | cons a t => simp
+
+/-- the hypotheses are satisfiable by a real table: a restrictive row and a request it decides -/
+example : Namespace.canCreate (fun r => (r : Int)) (fun r => (r : Int))
+      [⟨[97], [97, pct], [98], [pct]⟩, ⟨[97], [pct], [97], [pct]⟩] [97] [97, 97] [97] [104] = false ∧
+    Namespace.canCreate (fun r => (r : Int)) (fun r => (r : Int))
+      [⟨[97], [97, pct], [98], [pct]⟩, ⟨[97], [pct], [97], [pct]⟩] [97] [97, 97] [98] [104] = true := by decide
 
 end DoltVerif.C38
